@@ -48,6 +48,10 @@ def seg(rng, cls, ivals, fvals):
     if cls == "showc":
         k = rng.choice("ALTUD")
         n = rng.choice([0, 1, 3]) * (2 if k == "T" else 1)
+        if k == "T":          # keys include ones whose home is the last slot of a 5-, 11-, 23- or 53-slot table, and colliding ones
+            n = rng.choice([0, 1, 3, 4, 6])
+            ks = rng.sample([4, 9, 10, 21, 22, 52, 0, 5, 11, 44, 45, 105, -1] + [rng.randint(-9, 99) for _ in range(4)], n)
+            return "WT,%s" % ",".join("%d,%d" % (kk, rng.randint(-9, 99)) for kk in dict.fromkeys(ks))
         return "W%s,%s" % (k, ",".join(str(rng.randint(-9, 99)) for _ in range(n)))
     raise ValueError(cls)
 
